@@ -531,6 +531,79 @@ theorem run_swap12 (fr : Frame) (sh : Shared) (rest' : Bytes) (a b c : Bytes) (s
   exact Steps.done _ _
 
 
+/-! ### AND, inline bodies as the last instruction -/
+/-- `OP_AND` -/
+theorem run_and (fr : Frame) (sh : Shared) (rest' : Bytes) (a b : Bytes) (st : List Bytes) (r : Res)
+    (hrest : fr.rest = opc 88 ++ rest') (hcap : fr.len0 < fr.cap) (hr : sh.returned = false)
+    (hs : sh.stack = a :: b :: st) (hsz : (andBytes a b).length ≤ cfg.lim.maxItemSize) (hroom : st.length < cfg.lim.maxItems)
+    (h : TSteps (instrTable H C cfg) cfg.lim { fr with rest := rest' } { sh with stack := andBytes a b :: st } r) :
+    TSteps (instrTable H C cfg) cfg.lim fr sh r := by
+  refine run_instr fr _ sh _ 88 rest' r (by simpa [opc] using hrest) hcap hr ?_ h
+  show Steps _ _ (bitop andBytes .done) _ _ _
+  unfold bitop
+  nstep Steps.pop a (b :: st) hs ?_
+  nstep Steps.pop b st rfl ?_
+  nstep Steps.push hsz (by simpa using hroom) ?_
+  exact Steps.done _ _
+
+/-- what the enclosing tape sees of an IF / ELSE body: an error propagates; otherwise it goes on
+    (or, if the body executed RETURN, ends) with the body's state -/
+def wrapInline (fr : Frame) : Res → Res
+  | .err e s => .err e s
+  | .ok _ s => if s.returned then .ok (endFrame fr) s else .ok fr s
+
+theorem wrapInline_isFuel (fr : Frame) (r : Res) (h : r.isFuel = false) : (wrapInline fr r).isFuel = false := by
+  cases r with
+  | err e s => exact h
+  | ok f s => simp only [wrapInline]; split <;> rfl
+
+theorem Steps.sub_inline_done {T : UInt8 → Op} {L : Limits} {body : Bytes} {fr : Frame} {sh : Shared} {rB : Res}
+    (hb : TSteps T L (inlineFrame body fr sh) (copyDict sh fr.dict).2 rB) :
+    Steps T L (.sub .inline body .done) fr sh (wrapInline fr rB) := by
+  obtain ⟨m, hm, hf⟩ := hb
+  have hm' := runTape_mono T L (Nat.le_succ m) hm hf
+  refine ⟨m + 2, ?_, wrapInline_isFuel fr rB hf⟩
+  unfold inlineFrame at hm'
+  simp only [runOp, hm']
+  cases rB with
+  | err e s => rfl
+  | ok f s =>
+    simp only [wrapInline]
+
+/-- `OP_IF_ELSE` as the last instruction of a tape: the tape ends as its chosen body does -/
+theorem run_ifelse_last (fr : Frame) (sh : Shared) (a b c : Bytes) (st : List Bytes) (rB : Res)
+    (hrest : fr.rest = ifElse a b) (ha : a.length < 65536) (hb : b.length < 65536)
+    (hcap : fr.len0 < fr.cap) (hr : sh.returned = false) (hs : sh.stack = c :: st)
+    (hbody : TSteps (instrTable H C cfg) cfg.lim
+        (inlineFrame (if truthy c then a else b) { fr with rest := [] } { sh with stack := st })
+        (copyDict { sh with stack := st } fr.dict).2 rB) :
+    TSteps (instrTable H C cfg) cfg.lim fr sh (wrapInline { fr with rest := [] } rB) := by
+  have hrest' : fr.rest = 44 :: (u2 a.length ++ (a ++ (u2 b.length ++ (b ++ [])))) := by
+    simpa [ifElse, opc, List.append_assoc] using hrest
+  have hu : ∀ k, (u2 k).length = 2 := fun k => natToBytesBE_length 2 k
+  have hstep : Steps (instrTable H C cfg) cfg.lim (instrTable H C cfg 44)
+      { fr with rest := u2 a.length ++ (a ++ (u2 b.length ++ (b ++ []))) } sh (wrapInline { fr with rest := [] } rB) := by
+    show Steps _ _ (opIfElse .done) _ _ _
+    unfold opIfElse readU2
+    nstep Steps.read (by simp [hu]) ?_
+    rw [take_append_len _ _ _ (hu _), drop_append_len _ _ _ (hu _), u2_of_nat _ ha]
+    nstep Steps.read (by simp) ?_
+    rw [take_append_len _ _ _ rfl, drop_append_len _ _ _ rfl]
+    nstep Steps.read (by simp [hu]) ?_
+    rw [take_append_len _ _ _ (hu _), drop_append_len _ _ _ (hu _), u2_of_nat _ hb]
+    nstep Steps.read (by simp) ?_
+    rw [take_append_len _ _ _ rfl, drop_append_len _ _ _ rfl]
+    nstep Steps.pop c st hs ?_
+    exact Steps.sub_inline_done hbody
+  cases rB with
+  | err e s => exact TSteps.cons_err 44 _ hrest' hcap hr hstep
+  | ok f s =>
+    simp only [wrapInline] at hstep ⊢
+    split
+    · next hc => rw [if_pos hc] at hstep; exact TSteps.cons_ok 44 _ hrest' hcap hr hstep (TSteps.nil (by simp [endFrame]))
+    · next hc => rw [if_neg hc] at hstep; exact TSteps.cons_ok 44 _ hrest' hcap hr hstep (TSteps.nil rfl)
+
+
 /-! ### outcomes -/
 /-- what a run amounts to for the verdict: the final stack, or the error -/
 def Res.summary : Res → Except Err (List Bytes)
